@@ -377,6 +377,9 @@ fn check(b: &Built, rep: &mut Report) {
         rep.violation("C09/server-never-quiescent", desc(), replay());
         return;
     }
+    if scn.coop > 0 {
+        rep.count("cases_under_a_cooperative_budget");
+    }
     if scn.wake {
         rep.count("wake_driven_cases");
         rep.add("wake_driven_waker_firings", a.wakes);
@@ -639,6 +642,11 @@ pub fn run(cfg: &Cfg) -> Report {
                 let nhealthy = if miri { 1 } else { rng.range(1, 3) };
                 let mut b = build(&mut rng, kind, pos, nhealthy, small);
                 b.scn.wake = rng.chance(1, 3);
+                // every fifth scenario under a cooperative budget: after a few transport operations per poll every transport
+                // answers `Pending` until the server task has yielded (what tokio's sockets do after 128 operations)
+                if rng.chance(1, 5) {
+                    b.scn.coop = rng.range(1, 9) as u32;
+                }
                 let total = count_interleavings(&b.chains.iter().map(|c| c.len()).collect::<Vec<_>>());
                 let cap = if miri { 4 } else if small { 6 } else { 300 };
                 if total <= cap && k % 2 == 0 {
